@@ -67,9 +67,19 @@ let hex_of_string (s : string) =
   if s = "" then "-" else String.concat "" (List.map (fun c -> Printf.sprintf "%02x" (Char.code c)) (List.init (String.length s) (String.get s)))
 let bytes_of_string (s : string) : n list = List.init (String.length s) (fun i -> n_of_int (Char.code s.[i]))
 
+let depth_k = lazy (nat_of_int (int_of_n mAX_DEPTH))
+(* instance check of c19_roundtrip: inside the guard, parse (write v) must be canon v and re-write to the same text *)
+let rt_instance (v : jv) (w : n list) : string =
+  if wfb (Lazy.force depth_k) v && write cx_parsed O v = w then
+    (match parse_text w with
+     | POk (v2, []) when v2 = canon v && write cx_parsed O v2 = w && jv_eqb v v2 -> ";wf=1"
+     | _ -> ";wf=1;chk=RT-FAIL")
+  else ""
+
 let parse_result (text : n list) (print_tree : bool) : string =
   match parse_text text with
   | PFuel -> "ok=FUEL;class=parse:fuel"
+  | PDeep -> "ok=DEEP;class=parse:deep-hazard"
   | PErr e -> "ok=0;err=" ^ hex_of_string err_text.(int_of_n e) ^ ";class=parse:err" ^ string_of_int (int_of_n e)
   | POk (v, _) ->
     let w = write cx_parsed O v in
@@ -80,7 +90,9 @@ let parse_result (text : n list) (print_tree : bool) : string =
                           | JBool _ | JNull -> "lit" | _ -> "int" in
     "ok=1" ^ (if print_tree then ";tree=" ^ show v ^ ";w=" ^ hex_of_bytes w
               else ";wl=" ^ string_of_int (List.length w)) ^
-    ";rt=" ^ bool01 rt ^ ";class=parse:ok-" ^ kind ^ (if rt then "" else "-nort")
+    let inst = rt_instance v w in
+    ";rt=" ^ bool01 rt ^ (if inst = ";wf=1" then "" else if inst = "" then "" else ";chk=RT-FAIL") ^
+    ";class=parse:ok-" ^ kind ^ (if rt then "" else "-nort") ^ (if inst = "" then "" else "-wf")
 
 let mk_op (s : string) : pop =
   match String.split_on_char ':' s with
@@ -136,8 +148,11 @@ let handle (p : string) : string =
        let eq = jv_eqb v2 v && jv_eqb v v2 in
        let same = write cx_parsed O v2 = w in
        "w=" ^ hex_of_bytes w ^ ";ok=1;eq=" ^ bool01 eq ^ ";back=" ^ show v2 ^ ";same=" ^ bool01 same ^
+       let inst = rt_instance v w in
+       (if inst = ";wf=1;chk=RT-FAIL" then ";chk=RT-FAIL" else "") ^
        (if same then "" else ";known=C19-array-complex-flag") ^
-       ";class=tree:" ^ (if eq then "eq" else "NEQ") ^ (if same then "-same" else "-difftext")
+       ";class=tree:" ^ (if eq then "eq" else "NEQ") ^ (if same then "-same" else "-difftext") ^
+       (if inst = "" then "" else "-wf")
      | _ -> "w=" ^ hex_of_bytes w ^ ";ok=0;class=tree:unparsable")
   | ["patch"; d; ops] ->
     let d0 = build_s d in
